@@ -7,7 +7,7 @@
     nodetest_table_sound axis_table_sound pred_eval_sound pred_outcome_sound
     substring_not_xpath ne_absent_not_xpath step_matches_eq_xp parser_rejects_outside
     select_eq_xp_step select_eq_xp_chain select_eq_xp_childpath select_eq_xp_union
-    select_eq_xp_nonpositional select_eq_xp_nonpositional_default select_eq_xp_attribute select_eq_xp_attribute_step
+    select_eq_xp_nonpositional select_eq_xp_union_nonpositional select_eq_xp_nonpositional_default select_eq_xp_attribute select_eq_xp_attribute_step
     select_eq_xp_chain_attribute select_eq_xp_chain_attribute_default
     pattern_matches_eq_xp
     parser_accepts_subset_partial parser_accepts_steps_partial
@@ -676,6 +676,28 @@ theorem select_eq_xp_nonpositional (p : LocPath) (ns : NsMap) (vs : Vars) (hp : 
   simp only [pathTest, List.map_cons, List.map_nil, mkMatcher]
   exact select_union ns vs (toXVars vs) tag attrs kids hok [p] _ _
     (.cons (operand_nonpositional p ns vs hp tag attrs kids hcl hnodes) .nil)
+
+/-- unions of paths without position tests, all run by GenericStrategy: `a//b | .//c[@k] | d/e` -/
+theorem select_eq_xp_union_nonpositional (ps : List LocPath) (ns : NsMap) (vs : Vars)
+    (hps : ∀ p ∈ ps, StepsOk ns vs p)
+    (tag : QName) (attrs : AttrList) (kids : List Node)
+    (hcl : (Node.elem tag attrs kids).clean = true)
+    (hnodes : ∀ p ∈ ps, AllNodes (NodeFor p ns vs) (.elem tag attrs kids)) :
+    select ps ns vs (Node.elem tag attrs kids).flatten (some .generic)
+      = Ref.xpSelect ps ns (toXVars vs) (.elem tag attrs kids) := by
+  have hrok : (Node.elem tag attrs kids).ok = true := ok_of_clean _ hcl
+  have hok : okList kids = true := by simpa [Node.ok] using hrok
+  have hops : Operands ns vs (toXVars vs) (.elem tag attrs kids) ps
+      (ps.map fun p => (mkMatcher .generic p false).1) (ps.map fun p => (mkMatcher .generic p false).2) := by
+    induction ps with
+    | nil => exact .nil
+    | cons p ps ih =>
+      exact .cons (operand_nonpositional p ns vs (hps p List.mem_cons_self) tag attrs kids hcl
+          (hnodes p List.mem_cons_self))
+        (ih (fun q hq => hps q (List.mem_cons_of_mem _ hq)) (fun q hq => hnodes q (List.mem_cons_of_mem _ hq)))
+  unfold select
+  simp only [pathTest, List.map_map]
+  exact select_union ns vs (toXVars vs) tag attrs kids hok ps _ _ hops
 
 /-- `Path.__init__` picks GenericStrategy for every path of two or more steps that
     SimplePathStrategy does not support (a predicate, a wildcard or `node()` test somewhere) -/
